@@ -931,6 +931,30 @@ func (c *Ctx) ruleMinimumIdle(rule string) {
 	// TunePool shrink loop: continues only while idle > minimum
 	tp := c.methodOf(R.WorkerT, "TunePool")
 	if tp != nil {
+		// the loop that retires nodes sits in TunePool itself or in an unexported helper it calls (shrinkPool)
+		retiring := func(g *Func) bool {
+			found := false
+			ast.Inspect(g.Body, func(n ast.Node) bool {
+				if fs, ok := n.(*ast.ForStmt); ok {
+					ast.Inspect(fs.Body, func(m ast.Node) bool {
+						if call, ok := m.(*ast.CallExpr); ok && resolveCallee(g.Info(), call).Key == kNodeStop {
+							found = true
+						}
+						return true
+					})
+				}
+				return true
+			})
+			return found
+		}
+		if !retiring(tp) {
+			for _, cs := range c.P.calls(tp) {
+				if g := c.P.byObj[cs.Callee.Key]; g != nil && g.Lib && g.Pkg.PkgPath == modPath && g.Body != nil && g.Obj != nil && !g.Obj.Exported() && retiring(g) {
+					tp = g
+					break
+				}
+			}
+		}
 		info := tp.Info()
 		var minVar types.Object
 		ast.Inspect(tp.Body, func(n ast.Node) bool {
@@ -1010,13 +1034,13 @@ func (c *Ctx) ruleMinimumIdle(rule string) {
 	}
 	// freePoolNode: keeps the node when idle < minimum
 	if R.FreeNode != nil {
-		info := R.FreeNode.Info()
 		sr := c.vocab([]string{"push", "stop"}, nil).seq(rule, false)
 		sr.condExpr = func(fr *Frame, e ast.Expr, branch bool, ip *Interp, st *State) string {
 			be, op := binOp(e)
-			if be == nil || fr.Caller != nil {
+			if be == nil {
 				return ""
 			}
+			info := fr.Fn.Info()
 			isLen := func(e ast.Expr) bool {
 				call, ok := ast.Unparen(e).(*ast.CallExpr)
 				return ok && resolveCallee(info, call).Key == kListLen
@@ -1030,6 +1054,13 @@ func (c *Ctx) ruleMinimumIdle(rule string) {
 			}
 			if isMin(be.X) && isLen(be.Y) && op == token.GTR {
 				return fmt.Sprintf("below-min=%v", branch)
+			}
+			// the negated forms (De Morgan): idle >= minimum, minimum <= idle
+			if isLen(be.X) && isMin(be.Y) && op == token.GEQ {
+				return fmt.Sprintf("below-min=%v", !branch)
+			}
+			if isMin(be.X) && isLen(be.Y) && op == token.LEQ {
+				return fmt.Sprintf("below-min=%v", !branch)
 			}
 			return ""
 		}
